@@ -120,7 +120,7 @@ func (g *gl) expr(e ast.Expr, bs *[]glBind) string {
 			if g.leanType(sel.Obj().Type()) == "" {
 				g.bad(x.Pos(), "field %s has a type outside the fragment", x.Sel.Name)
 			}
-			return base + "." + glField(x.Sel.Name)
+			return base + g.fieldPath(sel)
 		}
 		if v, ok := g.info().Uses[x.Sel].(*types.Var); ok { // package-level variable of another package
 			return g.pkgVar(v, x.Pos())
@@ -192,6 +192,22 @@ func (g *gl) expr(e ast.Expr, bs *[]glBind) string {
 	}
 	g.bad(e.Pos(), "expression %T", e)
 	return "sorryExpr"
+}
+
+// fieldPath: ".f" or, for a field promoted from embedded structs, ".Embedded.f"
+func (g *gl) fieldPath(sel *types.Selection) string {
+	t := sel.Recv()
+	out := ""
+	for _, i := range sel.Index() {
+		if p, ok := t.(*types.Pointer); ok {
+			t = p.Elem()
+		}
+		st := t.Underlying().(*types.Struct)
+		f := st.Field(i)
+		out += "." + glField(f.Name())
+		t = f.Type()
+	}
+	return out
 }
 
 // a package-level variable: only error sentinels are in the fragment
